@@ -8,6 +8,14 @@ claimed = {
    text="Bounded exhaustive model checking: every cell of the operator x operand x operand table over a 43-value operand alphabet (both supply modes), all depth-2 nestings over a 10-value sub-alphabet, all range/conditional shapes, each compared with a reference operator model; finite, so enumerated completely in both tiers.",
    note="Trusted: the reference operator model (mc/ref/core.go, written from the statement), Go's float64 arithmetic and math.Mod, encoding/json for string forms. Operands outside the alphabet and nesting deeper than 2 are not covered.",
    technique="explicit enumeration of all operator/operand cases (stateless DFS over the choice tree) vs reference model", design="§5 C03", engine=E1),
+ "C08": dict(
+   text="Bounded exhaustive model checking of Compile/jparse.Parse/MustCompile totality: every string of 1-3 tokens over a 69-atom lexical alphabet (thorough: 4) with and without separators, every 4-token (thorough: 5) adjacent string over a 32-atom alphabet, all byte strings of length <=2 (thorough: <=3), every single-byte edit of every corpus program, all signature strings of <=4 (thorough: 5) symbols over 19, string/number/regex/back-quoted literal grammars, every corpus program in every child position; each run in a watchdogged worker so that panics, hangs and crashes are observable outcomes.",
+   note="Trusted: the CPU-time watchdog (10 CPU-s per case, confirmed in a fresh process), Go's recover for panics. Strings longer than the bounds and multi-edit mutations are not covered. The oracle is totality and result shape only (no reference parser).",
+   technique="explicit enumeration of all bounded input strings (stateless DFS) with totality/shape oracle in isolated worker processes", design="§5 C08", engine=E1),
+ "C09": dict(
+   text="Bounded exhaustive model checking of Eval totality: every built-in x every arity 0..max+1 x a 27-value type-chaotic alphabet (functions as data, nested/empty containers, null, missing) in three call forms, arity 3-4 over a 12-value alphabet, ~80 node shapes (operators, predicates, paths, wildcards, sort, group, chain, transform, partials, typed lambdas, internal field names of function objects) x value tuples, depth-2 compositions f(g(v),w) over all built-in pairs, typed lambdas over 13 types x 4 options x argument lists, every corpus program in every child position; each evaluated on 3 inputs in watchdogged workers.",
+   note="Trusted: watchdog and panic capture as for C08. Numbers in the alphabet are small so size-like arguments stay bounded (the statement bounds them); depth-3 compositions are outside the bound. Only 'returns without panic/hang' is checked here; values belong to the other properties.",
+   technique="explicit enumeration of bounded type-chaotic programs (stateless DFS) with totality oracle in isolated worker processes", design="§5 C09", engine=E1),
 }
 pending_reason = "check not built yet in this session (planned, see DESIGN.md §5)"
 
